@@ -144,6 +144,15 @@ impl Check for DatasetSummary {
     type Case = DatasetCase;
     const NAME: &'static str = "dataset_summary";
 
+    fn normalise(mut case: DatasetCase) -> DatasetCase {
+        for v in &mut case.values {
+            v.mantissa = if case.fixed_point { v.mantissa % 100_000_000_001 } else { v.mantissa % 1_000_000_001 };
+            v.scale %= 10;
+        }
+        case
+    }
+
+
     fn strategy(tier: Tier) -> BoxedStrategy<DatasetCase> {
         let max = match tier {
             Tier::Quick => 120,
